@@ -12,7 +12,7 @@ import iolog
 def c03(pid, tier, seed, scratch):
     bindir = C.build()
     X.ensure_shim()
-    n_hist, ops, max_points, per_point, cap = (5, 10, 60, 8, 900) if tier == "quick" else (30, 25, None, 12, 12000)
+    n_hist, ops, max_points, per_point, cap = (5, 10, 60, 8, 900) if tier == "quick" else (16, 25, None, 12, 5000)
     rep = K._report("crash-images[power-loss]", seed,
                     "same recorded histories as C02; per inode the content as of its last fsync plus the ordered un-synced writes/truncates, per directory the names as of the "
                     "last directory fsync plus pending name operations; at each crash point the fault choices {none survive, all survive, each single un-synced event dropped, "
